@@ -117,17 +117,24 @@ def record(ctx, nruns, nsteps):
 
 CORR_VS = [[1, 2, 2], [2, -2, 1], [2, 4, 4], [0, -6, 0], [-2, 1, 2], [0, 0, 3]]
 CORR_TYPES = {"coor": "coordinate", "vel": "velocity", "p2": "coordinate_p2"}
-CORR_MENU = [("vec", "coor"), ("vec", "p2"), ("vec", "vel"), ("unit", "coor"), ("unit", "p2"), ("scalar", "vel")]
+CORR_MENU = [("vec", "coor", False), ("vec", "p2", False), ("vec", "vel", False), ("unit", "coor", False), ("unit", "p2", False), ("scalar", "vel", False),
+             ("vec", "coor", True), ("unit", "p2", True), ("unit", "coor", True)]
 
 
 def corr_config(p):
-    if p["kind"] == "vec":
-        comp = ["  distanceVec {", "    group1 { dummyAtom (0,0,0) }", "    group2 { atomNumbers 1 }", "  }"]
-    elif p["kind"] == "unit":
-        comp = ["  distanceDir {", "    group1 { dummyAtom (0,0,0) }", "    group2 { atomNumbers 1 }", "  }"]
-    else:
-        comp = ["  distanceZ {", "    main { atomNumbers 1 }", "    ref { dummyAtom (0,0,0) }", "    axis (1,0,0)", "  }"]
-    cv = ["colvar {", "  name z"] + comp + ["  corrFunc on", "  corrFuncType %s" % CORR_TYPES[p["ctype"]], "  corrFuncLength %d" % p["clen"],
+    def comp_of(atom):
+        if p["kind"] == "vec":
+            return ["  distanceVec {", "    group1 { dummyAtom (0,0,0) }", "    group2 { atomNumbers %d }" % atom, "  }"]
+        if p["kind"] == "unit":
+            return ["  distanceDir {", "    group1 { dummyAtom (0,0,0) }", "    group2 { atomNumbers %d }" % atom, "  }"]
+        return ["  distanceZ {", "    main { atomNumbers %d }" % atom, "    ref { dummyAtom (0,0,0) }", "    axis (1,0,0)", "  }"]
+    comp = comp_of(1)
+    other = []
+    if p.get("cross"):
+        # the second variable (value = the first one's with its components rotated: atom 2 is placed there)
+        other = ["colvar {", "  name y"] + comp_of(2) + ["}"]
+        comp = comp + ["  corrFuncWithColvar y"]
+    cv = other + ["colvar {", "  name z"] + comp + ["  corrFunc on", "  corrFuncType %s" % CORR_TYPES[p["ctype"]], "  corrFuncLength %d" % p["clen"],
                                            "  corrFuncStride %d" % p["cstride"], "  corrFuncNormalize off", "}"]
     return "\n".join(cv) + "\n"
 
@@ -148,8 +155,8 @@ def record_corr(ctx, nruns, nsteps):
     for ri in range(nruns):
         wd = os.path.join(base, "r%d" % ri)
         os.makedirs(wd, exist_ok=True)
-        kind, ct = CORR_MENU[ri % len(CORR_MENU)]
-        p = {"kind": kind, "ctype": ct, "clen": rng.choice([1, 2, 3]), "cstride": rng.choice([1, 1, 2, 3])}
+        kind, ct, cross = CORR_MENU[ri % len(CORR_MENU)]
+        p = {"kind": kind, "ctype": ct, "clen": rng.choice([1, 2, 3]), "cstride": rng.choice([1, 1, 2, 3]), "cross": cross}
         sc = corr_scale(p)
         d = vlib.Drv(cwd=wd)
         try:
@@ -168,7 +175,7 @@ def record_corr(ctx, nruns, nsteps):
                     runs += 1
                 if os.path.exists(af):
                     os.remove(af)
-                r = d.cmd(op="step", pos=[[float(c) for c in x], [0, 0, 0]], newrun=(a == "NewRun"))
+                r = d.cmd(op="step", pos=[[float(c) for c in x], [float(x[1]), float(x[2]), float(x[0])]], newrun=(a == "NewRun"))
                 if r.get("op") != "step":
                     ctx.violation("crash", "implementation died while computing a correlation function", {"p": p})
                     break
@@ -205,7 +212,7 @@ def run(ctx):
     ctx.assumptions = [
         "files are flushed after every call and parsed by white space (no dependence on column widths)",
         "the running average file reports the mean and the standard deviation; they are compared through mean*L and stddev^2*L*(L-1), which are integers for integer values",
-        "autocorrelation functions (not normalised, offset 0): coordinate of a scalar (Output.tla); coordinate, velocity and second Legendre polynomial of 3-vectors, unit vectors and scalars on the norm-3/6 lattice (Corr.tla); cross correlation between two variables, corrFuncOffset and normalisation are not covered; restraint centres and accumulated work: see C06",
+        "autocorrelation functions (not normalised, offset 0): coordinate of a scalar (Output.tla); coordinate, velocity and second Legendre polynomial of 3-vectors, unit vectors and scalars on the norm-3/6 lattice (Corr.tla); cross correlation between two variables of the same type (the code's named deviation is followed and reported); corrFuncOffset and normalisation are not covered; restraint centres and accumulated work: see C06",
     ]
     vlib.build()
     quick = ctx.quick()
@@ -222,7 +229,10 @@ def run(ctx):
     if rc.violation:
         ctx.violation("model:corr:" + rc.violation, "Corr.tla violates %s" % rc.violation, {"tlc": vlib.counterexample(rc)})
     evc = record_corr(ctx, 36 if quick else 480, 16)
-    vlib.validate_trace(ctx, "CorrTrace", "CorrTrace.cfg", evc, "correlation files", key="corr-trace-rejected")
+    rt = vlib.validate_trace(ctx, "CorrTrace", "CorrTrace.cfg", evc, "correlation files", key="corr-trace-rejected")
+    if rt is not None and "cross-correlation-of-other-variable-only" in rt.out:
+        ctx.violation("cross-correlation-of-other-variable-only", "corrFuncWithColvar: the written correlation function between this variable x and another variable y is the "
+                      "autocorrelation <y(t).y(t-k)> of the OTHER variable (with x(t)^2 at lag 0) instead of <x(t).y(t-k)>: colvar::calc_acf() stores and correlates cfcv->value() only", {})
     if r is not None and '"QUIRK"' in r.out:
         ctx.violation("stale-value-after-deleting-last-bias", "after the last bias of a variable is deleted the variable is inactive (C13 finding) and the trajectory file keeps printing its last computed value under later step numbers", {})
 
